@@ -2,7 +2,7 @@
 #ifndef VERIF_C09_MODEL_H
 #define VERIF_C09_MODEL_H
 
-enum { M_SMALL = 1, M_FULL = 2, M_BOUND = 4, M_HUGE = 8, M_ORD = 16, M_ALIAS = 32, M_CORE = 64, M_BWIDE = 128 };          // alphabet masks
+enum { M_SMALL = 1, M_FULL = 2, M_BOUND = 4, M_HUGE = 8, M_ORD = 16, M_ALIAS = 32, M_CORE = 64, M_BWIDE = 128, M_HUGED = 256 };          // alphabet masks
 enum { SS_SMALL = 0, SS_SMALLQ, SS_BOUND, SS_BOUNDW, SS_BOUNDD, SS_HUGE, SS_HUGED, SS_ORD, SS_ALIAS };                         // start-state sets
 enum { T = 0, U = 1 };
 
